@@ -21,6 +21,15 @@ var borrowSources = map[string]string{
 	"(*bufio.Reader).Peek":                        "bufio.Reader.Peek (overwritten by the next read)",
 }
 
+// standard-library functions whose result is a part of their first argument (no copy is made)
+var subsliceFuncs = map[string]string{
+	"bytes.TrimSpace": "alias", "bytes.Trim": "alias", "bytes.TrimLeft": "alias", "bytes.TrimRight": "alias",
+	"bytes.TrimPrefix": "alias", "bytes.TrimSuffix": "alias", "bytes.TrimFunc": "alias", "bytes.TrimLeftFunc": "alias", "bytes.TrimRightFunc": "alias",
+	"bytes.Fields": "container", "bytes.FieldsFunc": "container", "bytes.Split": "container", "bytes.SplitN": "container",
+	"bytes.SplitAfter": "container", "bytes.SplitAfterN": "container",
+	"bytes.Cut": "tuple", "bytes.CutPrefix": "tuple", "bytes.CutSuffix": "tuple",
+}
+
 type borrowFlow struct {
 	c      *Ctx
 	g      *CallGraph
@@ -279,6 +288,26 @@ func (bf *borrowFlow) call(ci ssa.CallInstruction, v ssa.Value) {
 		}
 	}
 	if sc := com.StaticCallee(); sc != nil {
+		// library functions that hand back part of their argument instead of a copy
+		if kind, ok := subsliceFuncs[sc.String()]; ok && len(com.Args) > 0 && com.Args[0] == v {
+			if cv, ok := ci.(ssa.Value); ok {
+				switch kind {
+				case "alias":
+					bf.add(cv, v, "sub-slice returned by "+sc.String())
+				case "container":
+					bf.addContainer(cv, "sub-slices returned by "+sc.String())
+				case "tuple":
+					if cr := cv.Referrers(); cr != nil {
+						for _, z := range *cr {
+							if ex, ok := z.(*ssa.Extract); ok {
+								bf.add(ex, v, "sub-slice returned by "+sc.String())
+							}
+						}
+					}
+				}
+			}
+			return
+		}
 		for i, a := range com.Args {
 			if a == v {
 				bind(sc, i, false)
@@ -304,7 +333,7 @@ func (bf *borrowFlow) call(ci ssa.CallInstruction, v ssa.Value) {
 var ruleO2 = &Rule{
 	ID:    "O2",
 	Floor: 8,
-	Doc: "tokenizer-owned bytes are not retained: the byte slices returned by jx.Decoder.Raw / StrBytes and bufio.Scanner.Bytes alias a buffer the tokenizer overwrites as it advances. Each such result is followed forward over SSA — re-slices, conversions between byte-slice types, locals, decoder struct fields (field-based), containers it is put in, arguments to module functions and to dynamically dispatched handlers (call graph), returned values. " +
+	Doc: "tokenizer-owned bytes are not retained: the byte slices returned by jx.Decoder.Raw / StrBytes and bufio.Scanner.Bytes alias a buffer the tokenizer overwrites as it advances. Each such result is followed forward over SSA — re-slices, the bytes.Trim* / Split / Fields / Cut family (which return parts of their argument), conversions between byte-slice types, locals, decoder struct fields (field-based), containers it is put in, arguments to module functions and to dynamically dispatched handlers (call graph), returned values. " +
 		"Copies end the flow (string(b), append(dst, b...), copy, external decoding functions). Reaching the row model — a store into a field of a writer/model, writer/service or helpers struct, an element of a slice kept there, a package-level variable or a channel send — is a violation: the stored payload / value is silently replaced by later bytes of the request body as soon as the tokenizer refills its buffer",
 	Run: func(c *Ctx) []Obl {
 		bf := c.newBorrowFlow()
